@@ -14,8 +14,8 @@ fn q_cur(s: &Sys, t: &mut Tracer) {
     let c = s.q_em_config();
     let r: Result<em::EpochResponse, String> = s.query(&s.epoch, &em::QueryMsg::CurrentEpoch {});
     let body = match &r {
-        Ok(r) => json!({"ok": true, "id": limbs64(r.epoch.id), "start": limbs64(r.epoch.start_time.seconds()), "panic": false}),
-        Err(e) => json!({"ok": false, "id": "none", "start": "none", "panic": e.starts_with("panic")}),
+        Ok(r) => json!({"ok": true, "id": limbs64(r.epoch.id), "start": limbs64(r.epoch.start_time.seconds()), "sub": r.epoch.start_time.subsec_nanos(), "panic": false}),
+        Err(e) => json!({"ok": false, "id": "none", "start": "none", "sub": 0, "panic": e.starts_with("panic")}),
     };
     let mut b = body;
     let o = b.as_object_mut().unwrap();
@@ -28,8 +28,8 @@ fn q_id(s: &Sys, t: &mut Tracer, id: u64) {
     let c = s.q_em_config();
     let r: Result<em::EpochResponse, String> = s.query(&s.epoch, &em::QueryMsg::Epoch { id });
     let mut b = match &r {
-        Ok(r) => json!({"ok": true, "rid": limbs64(r.epoch.id), "start": limbs64(r.epoch.start_time.seconds()), "panic": false}),
-        Err(e) => json!({"ok": false, "rid": "none", "start": "none", "panic": e.starts_with("panic")}),
+        Ok(r) => json!({"ok": true, "rid": limbs64(r.epoch.id), "start": limbs64(r.epoch.start_time.seconds()), "sub": r.epoch.start_time.subsec_nanos(), "panic": false}),
+        Err(e) => json!({"ok": false, "rid": "none", "start": "none", "sub": 0, "panic": e.starts_with("panic")}),
     };
     let o = b.as_object_mut().unwrap();
     o.insert("id".into(), limbs64(id));
